@@ -195,7 +195,7 @@ def compile_source(input_dir, scope, start_year=2000, until_year=2050, until_at_
     return c
 
 
-def generate_arduino(c, output_dir, db_namespace, invocation="verif"):
+def generate_arduino(c, output_dir, db_namespace, invocation="verif", generate_zone_strings=False):
     """Run the real BufSizeEstimator + ArduinoGenerator on a Compilation."""
     buf = importlib.import_module("zonedb.bufestimator")
     arg = importlib.import_module("zonedb.argenerator")
@@ -207,7 +207,7 @@ def generate_arduino(c, output_dir, db_namespace, invocation="verif"):
             est = buf.BufSizeEstimator(c.zone_infos, c.zone_policies, c.tzdb['start_year'], c.tzdb['until_year'])
             buf_sizes, max_size = est.estimate()
             c.buf_sizes = buf_sizes
-            gen = arg.ArduinoGenerator(invocation=invocation, db_namespace=db_namespace, generate_zone_strings=False,
+            gen = arg.ArduinoGenerator(invocation=invocation, db_namespace=db_namespace, generate_zone_strings=generate_zone_strings,
                                        tzdb=c.tzdb, buf_sizes=buf_sizes)
             Path(output_dir).mkdir(parents=True, exist_ok=True)
             gen.generate_files(str(output_dir))
